@@ -27,7 +27,8 @@ CONSTANTS Mode, Trs, Ups,          \* "flow" | "seg";  transports and upstream-c
           BadKinds,                \* which malformed inputs: subset of {"bad", "zero"}
           Policies,                \* what an addon may do in dns_request: "none" | "respond" | "error"
           Streams,                 \* seg mode: client streams, sequences over {"q", "zero", "bad"}
-          SWhole                   \* bound: upstream bytes are delivered frame-aligned in one piece
+          SWhole,                  \* bound: upstream bytes are delivered frame-aligned in one piece
+          MaxSeg                   \* bound: a segment carries at most MaxSeg tokens, or everything on the wire
 VARIABLES tr, up, L, cw, sw, cref, sref, nq, nr, nb, run, plan, phase, mon, obs
 vars == <<tr, up, L, cw, sw, cref, sref, nq, nr, nb, run, plan, phase, mon, obs>>
 
@@ -205,7 +206,7 @@ ClientZero ==
   /\ cw' = cw \o ZeroPrefix /\ UNCHANGED <<tr, up, L, sw, cref, sref, nq, nr, run, plan, phase>> /\ Emit(<<>>)
 
 CSeg(n) ==
-  /\ Running /\ tr = "tcp" /\ ~L.cclosed /\ n \in 1..Len(cw)
+  /\ Running /\ tr = "tcp" /\ ~L.cclosed /\ n \in 1..Len(cw) /\ (n <= MaxSeg \/ n = Len(cw))
   /\ (Auto /\ run = 1) => n = Len(cw)                   \* run 1 of a segmentation scenario is the unsegmented one
   /\ LET seg == SubSeq(cw, 1, n)
          r == RefAdd(cref, seg)
@@ -214,7 +215,7 @@ CSeg(n) ==
   /\ UNCHANGED <<tr, up, sref, nq, nr, nb, run, plan, phase>>
 
 SSeg(n) ==
-  /\ Running /\ tr = "tcp" /\ L.conn /\ ~L.sclosed /\ n \in 1..Len(sw)
+  /\ Running /\ tr = "tcp" /\ L.conn /\ ~L.sclosed /\ n \in 1..Len(sw) /\ (n <= MaxSeg \/ n = Len(sw))
   /\ ((Auto /\ run = 1) \/ SWhole) => n = Len(sw)
   /\ LET seg == SubSeq(sw, 1, n)
          r == RefAdd(sref, seg)
